@@ -32,7 +32,9 @@ def run (op : String) (j : Json) : Option Json :=
       let r := installCluster rel ns (boolv j "takeOwnership") (boolv j "force") (boolv j "dryRun") tgt s rej
       some <| Json.mkObj [("store", jlist ofObj r.store), ("log", jlist ofEv r.log), ("ok", Json.bool r.ok)]
     | "upgrade" =>
-      let r := upgradeCluster rel ns (boolv j "takeOwnership") (boolv j "force") (boolv j "dryRun") cur tgt s rej
+      let r := if boolv j "dryRun" then upgradeCluster rel ns (boolv j "takeOwnership") (boolv j "force") true cur tgt s rej
+        else upgradeFull rel ns (boolv j "takeOwnership") (boolv j "force") (boolv j "cleanupOnFail")
+          (match obj j "rollbackTo" with | .arr a => some (a.toList.map toObj) | _ => none) cur tgt s rej
       some <| Json.mkObj [("store", jlist ofObj r.store), ("log", jlist ofEv r.log), ("ok", Json.bool r.ok)]
     | "rollback" =>
       if boolv j "dryRun" then some <| Json.mkObj [("store", jlist ofObj s), ("log", Json.arr #[]), ("ok", Json.bool true)] else
